@@ -5,3 +5,4 @@ pub mod oracle;
 pub mod spec;
 pub mod props;
 pub mod runner;
+pub mod engine_b;
